@@ -90,6 +90,14 @@ pub enum Edit {
     Splice { other_seed: u64, src: u32, len: u32, dst: u32, snap: bool },
     /// Keep `keep` bytes, then `len` random bytes.
     RandomTail { keep: u32, len: u32, seed: u64 },
+    /// Structured XML edit on the `which`-th element (see `apply_xml_edit`).
+    Xml { op: u8, which: u32, arg: u32 },
+    /// Uncompressed binary: set the wire type byte of the `which`-th PROP chunk.
+    PropType { which: u32, ty: u8 },
+    /// Uncompressed binary: rename the property of the `which`-th PROP chunk.
+    PropRename { which: u32, name: u8 },
+    /// Uncompressed binary: rename the class of the `which`-th INST chunk.
+    InstRename { which: u32, class: u8 },
 }
 
 #[derive(Clone, Debug, Serialize, Deserialize, PartialEq)]
@@ -656,6 +664,218 @@ const DICT: &[&[u8]] = &[
     b"<BinaryString name=\"b\">!!!!</BinaryString>", b"<CoordinateFrame name=\"c\"><X>1</X></CoordinateFrame>",
 ];
 
+const PROP_NAMES: &[&str] = &[
+    "Name", "Tags", "AttributesSerialize", "UniqueId", "Font", "FontFace", "BrickColor", "Color3uint8", "Color",
+    "size", "Size", "CFrame", "Parent", "Value", "Source", "MaterialColors", "PhysicalConfigData", "SecurityCapabilities",
+    "HistoryId", "Archivable", "Anchored", "", "MeshId", "TextureID", "PrimaryPart", "Capabilities", "WorldPivotData",
+];
+
+const CLASS_NAMES: &[&str] = &[
+    "Part", "Folder", "TextLabel", "Model", "ObjectValue", "Terrain", "MeshPart", "Script", "Workspace", "DataModel",
+    "", "Instance", "StringValue", "UnionOperation", "Decal", "Sound", "VerifNoSuchClass",
+];
+
+const XML_OPS: &[&str] = &[
+    "delete-element", "delete-closing-tag", "rename-element", "replace-text", "delete-attribute",
+    "change-attribute", "duplicate-attribute", "duplicate-element", "swap-elements",
+];
+
+const XML_NAMES: &[&str] = &[
+    "Item", "Properties", "string", "int", "int64", "float", "double", "bool", "Vector3", "Vector2", "CoordinateFrame",
+    "Ref", "SharedString", "BinaryString", "token", "X", "Y", "Z", "R00", "Color3", "Color3uint8", "UDim", "UDim2", "Content",
+    "url", "null", "OptionalCoordinateFrame", "CFrame", "UniqueId", "SecurityCapabilities", "Font", "Family", "Weight",
+    "Style", "CachedFaceId", "NumberSequence", "ColorSequence", "NumberRange", "PhysicalProperties", "CustomPhysics",
+    "Faces", "Axes", "Meta", "External", "SharedStrings", "roblox", "Rect2D", "min", "max", "Ray", "origin", "direction",
+    "ProtectedString", "Vector3int16", "Region3", "verifunknown",
+];
+
+const XML_TEXTS: &[&str] = &[
+    "", "NAN", "INF", "-INF", "1e999", "-1", "99999999999999999999", "0x10", "true", "TRUE", "!!!!", "AAAA", "AA=A", " ",
+    "null", "RBX0", "RBXFFFFFFFF", "1 2 3", "0 0 0 0 0 0", "1,2", "&#0;", "&bogus;", "-0", "4294967296", "1.5", "rbxasset://x",
+    "00000000000000000000000000000000", "zzzzzzzzzzzzzzzzzzzzzzzzzzzzzzzz", "AAAAAAAAAAAAAAAAAAAAAAAAAAAAAAAAAAAAAAAAAAAAAAAAAAAAAAAAAAAAAAAAAAAAAAAAAAAAAAAA",
+];
+
+#[derive(Clone, Debug)]
+struct XmlTag {
+    start: usize,
+    end: usize, // one past '>'
+    closing: bool,
+    self_closing: bool,
+    name: String,
+}
+
+fn scan_xml_tags(file: &[u8]) -> Vec<XmlTag> {
+    let mut out = Vec::new();
+    let mut i = 0usize;
+    while i < file.len() {
+        if file[i] == b'<' {
+            if file[i..].starts_with(b"<![CDATA[") {
+                match file[i..].windows(3).position(|w| w == b"]]>") {
+                    Some(p) => {
+                        i += p + 3;
+                        continue;
+                    }
+                    None => break,
+                }
+            }
+            let end = match file[i..].iter().position(|&b| b == b'>') {
+                Some(p) => i + p + 1,
+                None => break,
+            };
+            let inner = &file[i + 1..end - 1];
+            let closing = inner.first() == Some(&b'/');
+            let self_closing = inner.last() == Some(&b'/');
+            let name_bytes: Vec<u8> = inner
+                .iter()
+                .skip(if closing { 1 } else { 0 })
+                .take_while(|b| b.is_ascii_alphanumeric() || **b == b'_' || **b == b':')
+                .copied()
+                .collect();
+            if !inner.starts_with(b"?") && !inner.starts_with(b"!") {
+                out.push(XmlTag { start: i, end, closing, self_closing, name: String::from_utf8_lossy(&name_bytes).to_string() });
+            }
+            i = end;
+        } else {
+            i += 1;
+        }
+    }
+    out
+}
+
+/// Index of the tag that closes `tags[k]` (an opening tag), by depth counting.
+fn matching_close(tags: &[XmlTag], k: usize) -> Option<usize> {
+    let mut depth = 0i32;
+    for (j, t) in tags.iter().enumerate().skip(k) {
+        if t.self_closing {
+            if j == k {
+                return Some(k);
+            }
+            continue;
+        }
+        if t.closing {
+            depth -= 1;
+            if depth == 0 {
+                return Some(j);
+            }
+        } else {
+            depth += 1;
+        }
+    }
+    None
+}
+
+fn apply_xml_edit(file: &mut Vec<u8>, op: u8, which: u32, arg: u32) -> bool {
+    let tags = scan_xml_tags(file);
+    let opens: Vec<usize> = (0..tags.len()).filter(|&i| !tags[i].closing).collect();
+    if opens.is_empty() {
+        return false;
+    }
+    let k = opens[which as usize % opens.len()];
+    let t = tags[k].clone();
+    let close = matching_close(&tags, k);
+    match op % 9 {
+        0 => {
+            // delete the whole element
+            let end = close.map(|c| tags[c].end).unwrap_or(t.end);
+            file.drain(t.start..end);
+        }
+        1 => match close {
+            Some(c) if c != k => {
+                file.drain(tags[c].start..tags[c].end);
+            }
+            _ => return false,
+        },
+        2 => {
+            let new = XML_NAMES[arg as usize % XML_NAMES.len()];
+            // closing tag first so that offsets of the opening tag stay valid
+            if let Some(c) = close {
+                if c != k {
+                    let ct = &tags[c];
+                    file.splice(ct.start + 2..ct.start + 2 + ct.name.len(), new.bytes());
+                }
+            }
+            file.splice(t.start + 1..t.start + 1 + t.name.len(), new.bytes());
+        }
+        3 => {
+            // replace the text that follows the opening tag
+            let text_end = file[t.end..].iter().position(|&b| b == b'<').map(|p| t.end + p).unwrap_or(file.len());
+            let new = XML_TEXTS[arg as usize % XML_TEXTS.len()];
+            file.splice(t.end..text_end, new.bytes());
+        }
+        4 | 5 | 6 => {
+            // attributes: name="value"
+            let inner_start = t.start + 1 + t.name.len();
+            let inner_end = t.end - 1;
+            let seg = file[inner_start..inner_end].to_vec();
+            let mut attrs: Vec<(usize, usize, usize)> = Vec::new(); // (attr start, value start, attr end) relative
+            let mut i = 0;
+            while i < seg.len() {
+                if seg[i].is_ascii_alphabetic() {
+                    let a = i;
+                    while i < seg.len() && seg[i] != b'=' {
+                        i += 1;
+                    }
+                    if i + 1 < seg.len() && seg[i + 1] == b'"' {
+                        let vs = i + 2;
+                        let mut j = vs;
+                        while j < seg.len() && seg[j] != b'"' {
+                            j += 1;
+                        }
+                        if j < seg.len() {
+                            attrs.push((a, vs, j + 1));
+                            i = j + 1;
+                            continue;
+                        }
+                    }
+                    break;
+                }
+                i += 1;
+            }
+            if attrs.is_empty() {
+                return false;
+            }
+            let (a, vs, ae) = attrs[arg as usize % attrs.len()];
+            match op % 9 {
+                4 => {
+                    file.drain(inner_start + a..inner_start + ae);
+                }
+                5 => {
+                    let new = XML_TEXTS[(arg as usize / 7) % XML_TEXTS.len()];
+                    file.splice(inner_start + vs..inner_start + ae - 1, new.bytes().filter(|b| *b != b'"'));
+                }
+                _ => {
+                    let mut dup = vec![b' '];
+                    dup.extend_from_slice(&seg[a..ae]);
+                    file.splice(inner_start + ae..inner_start + ae, dup);
+                }
+            }
+        }
+        7 => {
+            let end = close.map(|c| tags[c].end).unwrap_or(t.end);
+            let copy = file[t.start..end].to_vec();
+            file.splice(end..end, copy);
+        }
+        _ => {
+            // swap with another element (non-overlapping)
+            let k2 = opens[arg as usize % opens.len()];
+            if k2 == k {
+                return false;
+            }
+            let (a, b) = if tags[k].start < tags[k2].start { (k, k2) } else { (k2, k) };
+            let a_end = matching_close(&tags, a).map(|c| tags[c].end).unwrap_or(tags[a].end);
+            let b_end = matching_close(&tags, b).map(|c| tags[c].end).unwrap_or(tags[b].end);
+            if a_end > tags[b].start {
+                return false; // nested
+            }
+            let ea = file[tags[a].start..a_end].to_vec();
+            let eb = file[tags[b].start..b_end].to_vec();
+            file.splice(tags[b].start..b_end, ea);
+            file.splice(tags[a].start..a_end, eb);
+        }
+    }
+    true
+}
+
 const HOSTILE_U32: &[u32] = &[0, 1, 0x7fff_ffff, 0x8000_0000, 0xffff_ffff, 0x00ff_ffff, 0x0100_0000, 65536];
 
 // ---------------------------------------------------------------------------
@@ -753,11 +973,11 @@ impl IoSim {
     fn gen_edit(&self, r: &mut Rng, format: Format) -> Edit {
         let pos = r.next_u64() as u32;
         let kinds: &[u32] = if format.is_bin() {
-            &[14, 12, 8, 6, 6, 6, 22, 16, 6, 4]
+            &[14, 12, 8, 6, 6, 6, 22, 16, 6, 4, 0, 8, 6, 6]
         } else if format.is_xml() {
-            &[12, 12, 6, 10, 10, 30, 0, 0, 14, 6]
+            &[10, 10, 5, 8, 8, 22, 0, 0, 10, 5, 40, 0, 0, 0]
         } else {
-            &[20, 20, 10, 8, 8, 6, 22, 0, 0, 6]
+            &[20, 20, 10, 8, 8, 6, 22, 0, 0, 6, 0, 0, 0, 0]
         };
         match r.weighted(kinds) {
             0 => Edit::Flip { pos, bit: r.below(8) as u8 },
@@ -778,7 +998,11 @@ impl IoSim {
                 dst: pos,
                 snap: r.chance(3, 4),
             },
-            _ => Edit::RandomTail { keep: pos, len: r.range(0, 64) as u32, seed: r.next_u64() >> 16 },
+            9 => Edit::RandomTail { keep: pos, len: r.range(0, 64) as u32, seed: r.next_u64() >> 16 },
+            10 => Edit::Xml { op: r.below(9) as u8, which: r.next_u64() as u32, arg: r.next_u64() as u32 },
+            11 => Edit::PropType { which: r.next_u64() as u32, ty: r.below(0x24) as u8 },
+            12 => Edit::PropRename { which: r.next_u64() as u32, name: r.below(PROP_NAMES.len() as u64) as u8 },
+            _ => Edit::InstRename { which: r.next_u64() as u32, class: r.below(CLASS_NAMES.len() as u64) as u8 },
         }
     }
 
@@ -1019,6 +1243,61 @@ impl IoSim {
                     file.splice(d..de, seg);
                     ctx.count("fault_fired:splice");
                 }
+            }
+            Edit::Xml { op, which, arg } => {
+                if format.is_xml() && apply_xml_edit(file, *op, *which, *arg) {
+                    ctx.count(&format!("fault_fired:xml-edit-{}", XML_OPS[*op as usize % XML_OPS.len()]));
+                }
+            }
+            Edit::PropType { which, ty } => {
+                if !format.is_bin() {
+                    return;
+                }
+                let props: Vec<ChunkSpan> = walk_chunks(file).into_iter().filter(|c| &c.name == b"PROP" && !c.compressed).collect();
+                if props.is_empty() {
+                    return;
+                }
+                let c = &props[*which as usize % props.len()];
+                if c.payload + 8 <= c.end {
+                    let nl = u32::from_le_bytes(file[c.payload + 4..c.payload + 8].try_into().unwrap()) as usize;
+                    let at = c.payload + 8 + nl;
+                    if at < c.end {
+                        file[at] = *ty;
+                        ctx.count("fault_fired:prop-wire-type");
+                    }
+                }
+            }
+            Edit::PropRename { which, name } | Edit::InstRename { which, class: name } => {
+                if !format.is_bin() {
+                    return;
+                }
+                let want: &[u8; 4] = if matches!(e, Edit::PropRename { .. }) { b"PROP" } else { b"INST" };
+                let list: Vec<ChunkSpan> = walk_chunks(file).into_iter().filter(|c| &c.name == want && !c.compressed).collect();
+                if list.is_empty() {
+                    return;
+                }
+                let c = &list[*which as usize % list.len()];
+                if c.payload + 8 > c.end {
+                    return;
+                }
+                let nl = u32::from_le_bytes(file[c.payload + 4..c.payload + 8].try_into().unwrap()) as usize;
+                if c.payload + 8 + nl > c.end {
+                    return;
+                }
+                let new_name: &str = if want == b"PROP" { PROP_NAMES[*name as usize % PROP_NAMES.len()] } else { CLASS_NAMES[*name as usize % CLASS_NAMES.len()] };
+                let mut payload = Vec::new();
+                payload.extend_from_slice(&file[c.payload..c.payload + 4]);
+                payload.extend_from_slice(&(new_name.len() as u32).to_le_bytes());
+                payload.extend_from_slice(new_name.as_bytes());
+                payload.extend_from_slice(&file[c.payload + 8 + nl..c.end]);
+                let mut chunk = Vec::new();
+                chunk.extend_from_slice(&file[c.start..c.start + 4]);
+                chunk.extend_from_slice(&0u32.to_le_bytes());
+                chunk.extend_from_slice(&(payload.len() as u32).to_le_bytes());
+                chunk.extend_from_slice(&0u32.to_le_bytes());
+                chunk.extend_from_slice(&payload);
+                file.splice(c.start..c.end, chunk);
+                ctx.count(if want == b"PROP" { "fault_fired:prop-rename" } else { "fault_fired:inst-rename" });
             }
             Edit::RandomTail { keep, len: l, seed } => {
                 let k = *keep as usize % (len + 1);
